@@ -2,7 +2,8 @@
    implementation returned and (projected) what the full key/value dump of the
    Badger store contained; [check] replays the history on the model. *)
 From Coq Require Import List ZArith NArith Bool.
-Require Import Mixin.Base.Res Mixin.Model.Fixed Mixin.Model.Finalize.
+Require Import Mixin.Base.Res Mixin.Model.Fixed.
+Require Export Mixin.Model.Finalize.
 Import ListNotations.
 Open Scope Z_scope.
 
